@@ -914,6 +914,7 @@ func (a *Analysis) IdxGuard() *report.RuleResult {
 					}
 				case *ast.ExprStmt:
 					visitExpr(x.X, facts, false)
+					facts = killAll(facts, modifiedBy(x)) // what the callee (and what it calls) may assign is unknown afterwards
 					if c, ok := x.X.(*ast.CallExpr); ok {
 						switch types.ExprString(c.Fun) {
 						case "lex.growCallStack":
@@ -1310,6 +1311,18 @@ func (a *Analysis) IdxGuard() *report.RuleResult {
 			v.why = "not implied by the conditions that dominate it: " + strings.Join(failed, ", ")
 		}
 	}
+	tbState := 0
+	tokenBoundsOK := func() bool {
+		if tbState == 0 {
+			tbState = 1
+			for _, ob := range a.TokenBounds().Obls {
+				if ob.Status != report.Discharged {
+					tbState = 2
+				}
+			}
+		}
+		return tbState == 1
+	}
 	var mproved map[string]bool
 	markProved := func() map[string]bool {
 		if mproved == nil {
@@ -1331,6 +1344,9 @@ func (a *Analysis) IdxGuard() *report.RuleResult {
 		} else if expr := strings.SplitN(strings.TrimPrefix(k, "Lex/"), " !", 2)[0]; strings.HasPrefix(k, "Lex/") && markProved()[expr] {
 			res.OK(k, m.Prog.Pos(v.pos), fn, "the bounds rest on cursor positions kept in locals of Lex: proved by mark-flow (recorded on every path since the token began, in order, inside the token; a recorded cursor is < len)")
 			res.Count("by-mark-flow", 1)
+		} else if strings.HasPrefix(k, "addFreeFloatingToken/lex.data[ps:pe]") && tokenBoundsOK() {
+			res.OK(k, m.Prog.Pos(v.pos), fn, "every call is an action of Lex that passes the token bounds at that moment (ff-span), and token-bounds shows 0 <= start <= end for each of them; te never exceeds len (token-bounds/writes)")
+			res.Count("by-token-bounds", 1)
 		} else if why, ok := idxReviewed[k]; ok {
 			res.OK(k, m.Prog.Pos(v.pos), fn, "reviewed: "+why)
 			res.Count("reviewed-exceptions", 1)
@@ -1354,7 +1370,6 @@ func hasTerm(fs []fact, t string) bool {
 
 // idxReviewed: accesses whose safety rests on an invariant the prover does not derive, each confirmed by reading.
 var idxReviewed = map[string]string{
-	"addFreeFloatingToken/lex.data[ps:pe] !low >= 0,low <= high,high <= len": "every call passes (ts, te) or (ts, ts+5) with ts+5 = te (rule ff-span), and 0 <= ts <= te <= len",
 	"Lex/lex.stack[lex.top] !index >= 0":                               "inlined fret of the string_var machines, which are entered only through fcall (a push), so top >= 1 before the decrement",
 }
 
